@@ -11,13 +11,13 @@
                        by the integer Σ 2^(id-1), compared here without building it: [set_ltb])
      boolexpr/msp.go   convert -> [convert]          (one [expand] per iteration of the outer loop)
      hierarchical.go   CheckConstraints -> [hier_constraints], InducedMSP -> [induced_hier]
-                       (birkhoff.BuildVandermondeMatrix / internal.Phi -> [phi])
+                       (birkhoff.BuildVandermondeMatrix / internal.Phi -> Interp.[phi], one row = one row of Interp.[build_birkhoff])
 
    [fromN] is field.FromUint64.  The row ORDER produced here is the order the code produces:
    it is part of the share format and compared entry-wise by the correspondence check. *)
 From Coq Require Import List NArith ZArith Bool Arith.
 Import ListNotations.
-Require Import V.base.Fld V.model.LinAlg V.model.Access.
+Require Import V.base.Fld V.model.LinAlg V.model.Poly V.model.Interp V.model.Access.
 
 Fixpoint insert_nat (x : nat) (l : list nat) : list nat :=
   match l with
@@ -219,16 +219,8 @@ Definition induced_gate (root : tree) : option msp :=
 
 (* ---- hierarchical: Birkhoff–Vandermonde ------------------------------------------------------------ *)
 
-(* Phi(c, x, j) = (d/dx)^j x^c at x:  c(c-1)..(c-j+1) · x^(c-j), zero for j > c *)
-Fixpoint falling (c j : nat) : N :=
-  match j with
-  | O => 1%N
-  | S j' => (N.of_nat c * falling (pred c) j')%N
-  end.
-Fixpoint fpow (x : F) (n : nat) : F :=
-  match n with O => f1 K | S k => fmul K x (fpow x k) end.
-Definition phi (c : nat) (x : F) (j : nat) : F :=
-  if Nat.ltb c j then f0 K else fmul K (fromN (falling c j)) (fpow x (c - j)).
+(* Phi(c, x, j) = (d/dx)^j x^c at x, zero for j > c: model/Interp.v [phi] (C20), written after
+   birkhoff/internal.Phi (coded Derivative iterated j times, coded Eval) *)
 
 (* CheckConstraints.  (1) the IDs of a level exceed every ID of the previous levels;
    (2) k = last threshold + 1 <= 20;  (3) alpha(k) * n^((k-1)(k-2)/2) < q with
@@ -268,7 +260,7 @@ Definition induced_hier (q : Z) (levels : list (nat * list N)) : option msp :=
     let rows := map (fun id =>
         match hier_rank levels id with
         | None => None
-        | Some j => Some (map (fun c => phi c (fromN id) j) (seq 0 k))
+        | Some j => Some (map (fun c => phi K c (fromN id) (N.of_nat j)) (seq 0 k))
         end) hs in
     if forallb (fun r => match r with Some _ => true | None => false end) rows
     then new_msp (flat_map (fun r => match r with Some x => [x] | None => [] end) rows) hs
